@@ -612,6 +612,14 @@ def install_fmt(ctx):
     def new_display(ip, pc, args, dt):
         return FmtArg(args[0], pc['method'])
 
+    @M.reg('Arguments::from_str', 'Arguments::from_str_nonconst', 'Arguments::new_const')
+    def arguments_from_str(ip, pc, args, dt):
+        v = deref_all(args[0])
+        try:
+            return FmtArgs([as_str(v)])
+        except Exception:
+            return FmtArgs([])
+
     @M.reg('Arguments::new')
     def arguments_new(ip, pc, args, dt):
         tpl = deref_all(args[0])
